@@ -198,7 +198,10 @@ def rule_coherence(ctx):
             for msg, what in probs:
                 ctx.violation("C03.c", "cursor", "FakeSnowflakeCursor._execute", f"{kind}: stale conn.{what}",
                               "fakesnow/cursor.py", f"after {kind}: {msg}")
-    for kind, gone in (("DROP SCHEMA", "schema"), ("DROP DATABASE", "database"), ("DROP SCHEMA current", "schema"), ("DROP DATABASE current", "database")):
+    for kind, gone in (("DROP SCHEMA", "schema"), ("DROP DATABASE", "database"), ("DROP SCHEMA current", "schema"), ("DROP DATABASE current", "database"),
+                       ("DROP TABLE", "table"), ("DROP VIEW", "view"), ("DROP TABLE named like the current schema", "table"),
+                       ("DROP VIEW named like the current database", "view"), ("DROP SCHEMA named like the current database", "schema"),
+                       ("DROP SCHEMA of the same name in another database", "schema")):
         for tr in traces(prog, kind):
             if tr.path.outcome != "return":
                 continue
